@@ -104,7 +104,7 @@ SigCodecClauses(k, p, o) ==
 \* kind "sigprof": a VALID signature with the given profile (the key is constructed for it) must verify in both encodings
 SigProfClauses(k, p, o) ==
   [prof      |-> ProfBinds(p, o),
-   valid     |-> o.valid,                               \* sanity of the construction (two independent verifiers agree)
+   valid     |-> o.valid,                               \* sanity of the construction (confirmed by the independent verifiers)
    derLen    |-> o.derLen = PDer(p),
    vRaw      |-> o.vRaw = "true",
    vDer      |-> o.vDer = "true",
